@@ -114,6 +114,11 @@ fn tri<T: Sc>(t: &mut Toks, cx: &mut Ctx, to_q: Option<fn(&T) -> Option<Q>>) -> 
     if let Some(dq) = dq {
         if let Ok((det, _)) = guarded(|| exact_det_rank(&dq)) {
             if T::is_exact() { match &dt { Ok(x) => cx.check(conv(x) == Some(det), "det differs from the exact determinant of the dense twin"), Err(c) => cx.fail(format!("det panicked ({})", c)) } }
+            else if T::TAG == "f" { // floats on exactly convertible data: the determinant against the exact one, relative to the Hadamard-type scale
+                match &dt { Ok(x) => { let scale: f64 = (0..n).map(|a| (0..n).map(|b| d[a][b].mag64()).fold(0.0, f64::max).max(1e-300)).product();
+                        let (xf, df) = (x.parts64().0, det.to_f64());
+                        cx.check(!xf.is_finite() || !scale.is_finite() || (xf - df).abs() <= 1e-10 * scale.max(df.abs()), "det far from the exact determinant of the dense twin (sign included)"); }
+                    Err(c) => cx.fail(format!("det panicked ({})", c)) } }
             if r.size() == n && T::is_exact() {
                 // independent forward elimination without pivoting: does a zero pivot occur?
                 let rq: Vec<Q> = r.vec.iter().map(|x| conv(x).unwrap()).collect();
